@@ -30,6 +30,9 @@ pub fn build_target(target: &str) -> Result<PathBuf, String> {
         .args(["+nightly", "fuzz", "build", target])
         .current_dir(FUZZ_DIR)
         .env("CARGO_NET_OFFLINE", "true")
+        // cargo-fuzz sets RUSTFLAGS itself (which hides build.rustflags of .cargo/config.toml)
+        // and appends the caller's RUSTFLAGS: the hook cfg has to come from here
+        .env("RUSTFLAGS", "--cfg sourcemap_verif")
         .output()
         .map_err(|e| format!("cannot run cargo fuzz: {e}"))?;
     if !out.status.success() {
@@ -119,8 +122,17 @@ fn run_campaign<C: Serialize>(ctx: &mut Ctx, sub: &'static str, camp: &Campaign,
             .arg("-print_final_stats=1")
             .arg(format!("-artifact_prefix={}/", artifacts.display()))
             .current_dir(&wdir)
-            .stdout(Stdio::null())
-            .stderr(Stdio::piped());
+            .stdout(Stdio::null());
+        // stderr goes to a file: a pipe that is only drained when its worker is awaited
+        // blocks the other workers once it is full
+        match std::fs::File::create(wdir.join("fuzz.log")) {
+            Ok(f) => {
+                cmd.stderr(Stdio::from(f));
+            }
+            Err(_) => {
+                cmd.stderr(Stdio::null());
+            }
+        }
         if dict.is_file() {
             cmd.arg(format!("-dict={}", dict.display()));
         }
@@ -142,14 +154,15 @@ fn run_campaign<C: Serialize>(ctx: &mut Ctx, sub: &'static str, camp: &Campaign,
                 std::thread::sleep(std::time::Duration::from_secs(2));
             }
         });
-        let out = ch.wait_with_output();
+        let mut ch = ch;
+        let status = ch.wait();
         stop.store(true, std::sync::atomic::Ordering::Relaxed);
         let _ = hb.join();
-        let Ok(out) = out else {
+        let Ok(status) = status else {
             ctx.inconclusive.push(format!("{sub}: worker {w} could not be awaited"));
             continue;
         };
-        let log = String::from_utf8_lossy(&out.stderr).into_owned();
+        let log = std::fs::read(wdir.join("fuzz.log")).map(|b| String::from_utf8_lossy(&b).into_owned()).unwrap_or_default();
         total_units += stat(&log, "stat::number_of_executed_units:");
         let c = last_cov(&log);
         if c.0 > best_cov.0 {
@@ -192,10 +205,10 @@ fn run_campaign<C: Serialize>(ctx: &mut Ctx, sub: &'static str, camp: &Campaign,
                 }
             }
         }
-        if !out.status.success() && !ctx.failed() && ctx.inconclusive.is_empty() {
+        if !status.success() && !ctx.failed() && ctx.inconclusive.is_empty() {
             ctx.inconclusive.push(format!(
                 "{sub}: worker {w} exited with {:?} without an artifact; log tail: {}",
-                out.status.code(),
+                status.code(),
                 log.lines().rev().take(8).collect::<Vec<_>>().into_iter().rev().collect::<Vec<_>>().join(" | ")
             ));
         }
